@@ -244,7 +244,8 @@ func IntProps(propContainer map[string]object.PanObject) map[string]object.PanOb
 				res := self.Value / other.Value
 
 				// HACK: convert round to floor
-				if res < 0 && self.Value%other.Value != 0 {
+				// (the quotient is truncated toward zero, which differs from floor if signs differ)
+				if self.Value%other.Value != 0 && (self.Value < 0) != (other.Value < 0) {
 					// NOTE: Int's descendants also call this
 					return object.NewInheritedInt(args[0].Proto(), res-1)
 				}
